@@ -1,6 +1,7 @@
 (* conversions between OCaml ints/strings and the extracted binary numbers *)
 open BinNums
 open Datatypes
+type coq_N = BinNums.coq_N
 
 let rec pos_of_int (i : int) : positive =
   if i = 1 then Coq_xH
